@@ -65,6 +65,25 @@ CHECKS = {
               "PARTIAL: the OS scheduler itself is replaced by the controlled permutation."),
         ref="5.C05", technique="Lean 4 permutation-invariance proof of the accumulation folds + controlled-schedule correspondence",
         note="Pool.imap_unordered delivers each result exactly once; results transported by pickling"),
+    "C06": dict(
+        text=("Theorems about two transition systems with unbounded numbers of ranks, tasks and chunks. (A) dispatch "
+              "protocol of iter_unordered under MPI (root first pass, wildcard receive of results, re-dispatch, "
+              "sentinels, barrier; shape selected by GENERATED flags): an invariant (task multiset = pending + in "
+              "flight + yielded; the root's counter = number of busy workers) holds in every reachable state for every "
+              "selection of ranks and every order of root / worker steps and of wildcard matches; progress (no "
+              "reachable non-final state is stuck = NO DEADLOCK), a decreasing measure (termination), exactly_once "
+              "(at the end every task was yielded exactly once and nothing is left); witness: without the root "
+              "fallback and without a usable worker rank nothing is executed (max_workers=1 before the repair). "
+              "(B) writer protocol of MPI catalog creation (many senders, one wildcard receiver, eager AND synchronous "
+              "sends): invariant incl. per-sender FIFO accounting; no_loss (when the writer stops every queue is empty "
+              "and every chunk of every sender was written exactly once, in order), progress, termination; witness: "
+              "the single-sentinel protocol before the repair loses data under eager sends. Tie: generated flags + "
+              "AST pins; the real MPI branches run in simulated MPI worlds (fake mpi4py: ranks as threads, controlled "
+              "scheduler choosing the next completing call, the wildcard match and eager / synchronous completion, "
+              "exact deadlock detection); every world's event trace is replayed through the executable `step` / "
+              "`stepB` of the model, the root's results are compared bitwise with a single-process run."),
+        ref="5.C06", technique="Lean 4 invariant / progress / termination proofs over two MPI protocol transition systems + simulated-MPI trace acceptance and differential runs",
+        note="PARTIAL: a real MPI library (progress engine, network, start-up) is replaced by harness/fakempi; collectives (bcast, gather, split, barrier) are executed by the simulator but not modelled in Lean; root-result = sequential-result rests on C05's accumulation theorem plus the differential runs"),
     "C07": dict(
         text=("Theorems about the tree-cache state machine of a patch (marker file, pickled trees, build with the "
               "GENERATED reuse rule, re-open, measure): cached trees are reused only for an identical binning (same "
